@@ -36,12 +36,12 @@ VARIANTS = [(' ', ': '), ('  ', ':  '), ('\t', ':\t'), (' ', ' : ')]
 
 def BOUNDS(tier):
     return ('shapes: corner set + %s (ns<=4, np<=3, nl<=3), 2- and 3-agent; 4 whitespace variants; trailing block present/absent; with and without -twopl; '
-            'second-side lists exact or listing all students; quotas/targets symbolic' % ('150 seeded random' if tier == 'quick' else '300 seeded random + exhaustive ns<=2,np<=2,nl<=2'))
+            'second-side lists exact or listing all students; quotas/targets symbolic' % ('150 seeded random' if tier == 'quick' else '2000 seeded random + exhaustive ns<=2,np<=2,nl<=2'))
 
 
 def tasks(tier, seed):
     rng = random.Random(seed + 1010)
-    shs = shapes.shape_set(tier, seed, quick_n=150, thorough_n=300)
+    shs = shapes.shape_set(tier, seed, quick_n=150, thorough_n=2000)
     if tier == 'thorough':
         seen = {s.shape_key() for s in shs}
         for dims in ((3, 2, 2, 2), (2, 2, 2, 2)):
